@@ -23,6 +23,19 @@
 #include <bpf/bpf_helpers.h>
 #include <bpf/bpf_endian.h>
 
+/* VLAN header (tag following the Ethernet header or another tag) */
+struct vlan_hdr {
+	__be16 h_vlan_TCI;
+	__be16 h_vlan_encapsulated_proto;
+};
+
+#ifndef ETH_P_8021Q
+#define ETH_P_8021Q  0x8100   /* 802.1Q VLAN Extended Header */
+#endif
+#ifndef ETH_P_8021AD
+#define ETH_P_8021AD 0x88A8   /* 802.1ad Service VLAN (QinQ outer) */
+#endif
+
 /* Maximum subscribers */
 #define MAX_SUBSCRIBERS 1000000
 
@@ -215,9 +228,24 @@ int antispoof_ingress(struct __sk_buff *skb) {
 		return TC_ACT_OK;
 	}
 
+	/* Skip up to two VLAN tags (802.1Q / 802.1ad): the source address of a
+	 * tagged frame is validated like that of an untagged one */
+	__be16 h_proto = eth->h_proto;
+	void *l3 = data + sizeof(*eth);
+	#pragma unroll
+	for (int i = 0; i < 2; i++) {
+		if (h_proto == bpf_htons(ETH_P_8021Q) || h_proto == bpf_htons(ETH_P_8021AD)) {
+			struct vlan_hdr *vhdr = l3;
+			if ((void *)(vhdr + 1) > data_end)
+				return TC_ACT_OK;
+			h_proto = vhdr->h_vlan_encapsulated_proto;
+			l3 = vhdr + 1;
+		}
+	}
+
 	/* Handle IPv4 */
-	if (eth->h_proto == bpf_htons(ETH_P_IP)) {
-		struct iphdr *ip = data + sizeof(*eth);
+	if (h_proto == bpf_htons(ETH_P_IP)) {
+		struct iphdr *ip = l3;
 		if ((void *)(ip + 1) > data_end)
 			return TC_ACT_OK;
 
@@ -252,8 +280,8 @@ int antispoof_ingress(struct __sk_buff *skb) {
 	}
 
 	/* Handle IPv6 */
-	if (eth->h_proto == bpf_htons(ETH_P_IPV6)) {
-		struct ipv6hdr *ip6 = data + sizeof(*eth);
+	if (h_proto == bpf_htons(ETH_P_IPV6)) {
+		struct ipv6hdr *ip6 = l3;
 		if ((void *)(ip6 + 1) > data_end)
 			return TC_ACT_OK;
 
